@@ -203,6 +203,90 @@ theorem at_most_once_faithful (c : Cfg) (sha : Bytes) (k a : List Bytes) (truth 
   unfold events at h2
   omega
 
+/-! #### … and through a client that re-sends retryable-tagged commands -/
+
+def isIo : Reply → Bool
+  | .io _ => true
+  | _ => false
+
+/-- a client with retries enabled (every rueidis client by default): a command tagged
+    retryable that fails with a transport error is silently sent again, at most `n` times -/
+def resend (n : Nat) (step : σ → Cmd → σ × Reply) (s : σ) (cmd : Cmd) : σ × Reply :=
+  match n with
+  | 0 => step s cmd
+  | n + 1 =>
+    let p := step s cmd
+    if cmd.retry && isIo p.2 then resend n step p.1 cmd else p
+
+/-- a script that is neither read-only nor from a *Retryable constructor never tags a script
+    command retryable — neither the EVALSHA nor the EVAL fallback after NOSCRIPT; only
+    SCRIPT LOAD (which runs nothing) is -/
+theorem untagged_unless_opted_in (c : Cfg) (sha : Bytes) (k a : List Bytes) (step : σ → Cmd → σ × Reply)
+    (s : σ) (hro : c.ro = false) (hr : c.retry = false) :
+    ∀ p ∈ (exec c sha k a step s).trace, p.1.kind = .scriptLoad ∨ p.1.retry = false := by
+  have h : ((exec c sha k a step s).trace.map (·.1)).all
+      (fun cmd => cmd.kind == .scriptLoad || !cmd.retry) = true := by
+    exec_bash
+  intro p hp
+  have := List.all_eq_true.mp h p.1 (List.mem_map.mpr ⟨p, hp, rfl⟩)
+  simpa using this
+
+private theorem resend_untagged (n : Nat) (step : σ → Cmd → σ × Reply) (s : σ) (cmd : Cmd)
+    (h : cmd.retry = false) : resend n step s cmd = step s cmd := by
+  cases n <;> simp [resend, h]
+
+private theorem resend_load_runs (truth : Bytes) (v : Reply) (n : Nat) (s : Srv) (cmd : Cmd)
+    (h : cmd.kind = .scriptLoad) : (resend n (srvStep truth v) s cmd).1.runs = s.runs := by
+  have hstep : ∀ s : Srv, (srvStep truth v s cmd).1.runs = s.runs := by
+    intro s
+    unfold srvStep
+    cases hf : s.faults.headD .none <;> simp [h, hf]
+  induction n generalizing s with
+  | zero => simpa [resend] using hstep s
+  | succ n ih =>
+    simp only [resend]
+    split
+    · rw [ih, hstep]
+    · exact hstep s
+
+private theorem run_runs_resend (truth : Bytes) (v : Reply) (hv : isNoScript v = false) (n : Nat)
+    (s s' : Srv) (tr : List (Cmd × Reply)) (h : Run (resend n (srvStep truth v)) s tr s')
+    (hu : ∀ p ∈ tr, p.1.kind = .scriptLoad ∨ p.1.retry = false) :
+    s'.runs ≤ s.runs + ((tr.map evOf).filter ranBody).length := by
+  induction h with
+  | nil s => simp
+  | cons hrun ih =>
+    rename_i s cmd tr s''
+    have ih' := ih (fun p hp => hu p (by simp [hp]))
+    have h1 : (resend n (srvStep truth v) s cmd).1.runs ≤
+        s.runs + (if ranBody (evOf (cmd, (resend n (srvStep truth v) s cmd).2)) then 1 else 0) := by
+      rcases hu (cmd, (resend n (srvStep truth v) s cmd).2) (by simp) with hk | hr
+      · have := resend_load_runs truth v n s cmd hk
+        omega
+      · rw [resend_untagged n _ s cmd hr]
+        exact srvStep_runs truth v hv s cmd
+    simp only [List.map_cons, List.filter_cons]
+    split <;> simp_all <;> omega
+
+/-- the same bound when the client re-sends retryable-tagged commands after transport errors
+    (any number of times, any pattern of lost requests and lost replies): a script that is neither
+    read-only nor created by a *Retryable constructor is run at most once per `Exec`. This is
+    what the `!exec` oracle lines judge on the real code (`Spec.bodyRunsOk`). -/
+theorem at_most_once_resend (c : Cfg) (sha : Bytes) (k a : List Bytes) (truth : Bytes) (v : Reply)
+    (hv : isNoScript v = false) (n : Nat) (s : Srv) (hro : c.ro = false) (hr : c.retry = false) :
+    bodyRunsOk c.ro c.retry true
+      ((exec c sha k a (resend n (srvStep truth v)) s).srv.runs - s.runs) = true := by
+  have h1 := run_runs_resend truth v hv n s _ _ (exec_run c sha k a (resend n (srvStep truth v)) s)
+    (untagged_unless_opted_in c sha k a _ s hro hr)
+  have h2 := body_at_most_once c sha k a (resend n (srvStep truth v)) s
+  unfold events at h2
+  simp only [bodyRunsOk, Bool.or_eq_true, decide_eq_true_eq]
+  left; omega
+
+/-- the opt-in is real: a retryable script whose EVALSHA reply is lost is run again by the re-send -/
+example : (exec ⟨false, false, false, true, [1], [2]⟩ [2] [] [] (resend 1 (srvStep [2] (.int 1)))
+    ⟨true, 0, [.after]⟩).srv.runs = 2 := by decide
+
 /-- the hypothesis `hv` is needed: a script whose body *returns* an error starting with NOSCRIPT
     (`return redis.error_reply('NOSCRIPT …')`) is run by EVALSHA and then again by the EVAL
     fallback, because the client cannot tell the two NOSCRIPT answers apart -/
